@@ -10,9 +10,11 @@
 
    Proved here (for every state, every database size, every block layout):
      1. checksum() = scratch of the per-page checksums in effect;
-     2. the checksum CommitJournal reports = scratch over the cached page
-        checksums of pages 1..commit, and the cache is left truthful and zero
-        beyond commit;
+     2. the checksum CommitJournal reports = scratch over the page checksums
+        of pages 1..commit - the cached one ([jc]), or for a page inside the
+        grown database that SQLite never wrote (a free-list leaf: allocated and
+        freed again within the transaction) the checksum of what the file holds
+        there - and the cache is left truthful and zero beyond commit;
      3. the checksum CommitWAL reports = scratch over (this tx's page, else last
         committed WAL version, else database page);
      4. a drop reports exactly the empty checksum.
@@ -32,11 +34,18 @@ Proof. exact checksum_is_scratch. Qed.
 
 Theorem C04_commit_journal_checksum : forall s commit s',
   CacheOK s -> LockZero s -> 1 <= lockpg s -> op_commit_journal s commit = (Done, s') ->
-  chk s' = scratch (fun p => if p =? lockpg s then 0 else dbc s p) commit /\
+  chk s' = scratch (fun p => if p =? lockpg s then 0 else jc s p) commit /\
   txid s' = txid s + 1 /\ pageN s' = commit /\ dirty s' = [] /\
   CacheOK s' /\ LockZero s' /\ (forall p, commit < p -> dbc s' p = 0) /\
-  (forall p, 1 <= p <= commit -> dbc s' p = dbc s p).
+  (forall p, 1 <= p <= commit -> p <> lockpg s -> dbc s' p = jc s p).
 Proof. exact commit_journal_checksum. Qed.
+
+(* a database that grows across pages SQLite never wrote (free-list leaves): those pages count with the checksum of
+   what the file holds there *)
+Theorem C04_unwritten_page_counted : forall s commit s',
+  CacheOK s -> LockZero s -> 1 <= lockpg s -> op_commit_journal s commit = (Done, s') ->
+  forall p, unwritten s p = true -> p <= commit -> p <> lockpg s -> dbc s' p = file_h s p.
+Proof. exact commit_journal_unwritten. Qed.
 
 Theorem C04_commit_wal_checksum : forall s frames commit s',
   CacheOK s -> LockZero s -> (forall p, pageN s < p -> dbc s p = 0) ->
@@ -60,3 +69,16 @@ Example C04_nonvacuous :
   (txid s, pageN s, negb (chk s =? flag), wal_mode s) = (1, 257, true, true) /\
   fst (run_group s [OWalHeader; OCommitWal [(1, mkPg (fl 5) 256 true)] 256]) = 0.
 Proof. vm_compute. split; reflexivity. Qed.
+
+(* ... and a database of 2 pages that grows to 5 while only pages 1 and 5 are written (3 and 4: zeros put there by the
+   file system, checksums 33 and 44): the position's checksum is the from-scratch one over all five pages, the
+   transaction file holds pages 1, 3, 4, 5, and a restart (OOpen recomputes every checksum from the file) agrees *)
+Example C04_unwritten_pages_nonvacuous :
+  let s1 := snd (run_group (init 2097153) [OWrite 1 (mkPg (fl 11) 2 false); OWrite 2 (mkPg (fl 12) 0 false); OCommitJournal 2]) in
+  let s2 := snd (run_group s1 [OWrite 1 (mkPg (fl 21) 5 false); OWrite 5 (mkPg (fl 55) 0 false);
+                               OZeroFill 3 (mkPg (fl 33) 0 false); OZeroFill 4 (mkPg (fl 44) 0 false); OCommitJournal 5]) in
+  (txid s2, chk s2 =? fl (N.lxor (N.lxor (N.lxor (N.lxor 21 12) 33) 44) 55), map (fun f => map fst (l_pages f)) (ltxdir s2))
+    = (2, true, [[1;2];[1;3;4;5]]) /\
+  (unwritten (snd (run_group s1 [OWrite 1 (mkPg (fl 21) 5 false); OWrite 5 (mkPg (fl 55) 0 false)])) 3 = true) /\
+  run_group s2 [OOpen] = (0, snd (run_group s2 [OOpen])) /\ chk (snd (run_group s2 [OOpen])) = chk s2.
+Proof. vm_compute. repeat split; reflexivity. Qed.
